@@ -79,11 +79,11 @@ def compare_tables(rep, run, select=lambda cid: True, what=("gen", "states", "ro
                 break
     return n
 
-def obligations_validate(rep, run, cids, name="validate"):
+def obligations_validate(rep, run, cids, name="validate", extra_import=None):
     """kernel-checked: validate g sts tbl = true on the dump of the REAL code, one lemma per instance"""
     if not cids: return {}
     # pass 1: evaluate all instances at once to learn which hold
-    lines = [coqgen.HEADER]
+    lines = [coqgen.HEADER + (f"Require Import {extra_import}.\n" if extra_import else "")]
     for k in cids:
         lines.append(f"Definition g{k} := {coqgen.grammar_term(run.gis[k])}.\nDefinition s{k} := {coqgen.states_term(run.real[k]['states'])}.\nDefinition t{k} := {coqgen.table_term(run.real[k]['rows'])}.")
     lines.append("Definition all_results := [" + "; ".join(f"({k}, {name} g{k} s{k} t{k})" for k in cids) + "].")
@@ -162,6 +162,11 @@ def check_C01(rep):
             if len(samples) < 3: samples.append({"grammar": run.meta[k]["rules"], "carrier": run.meta[k]["carrier"], "accepted": acc, "rejected": rej, "states": len(real["states"])})
     d12 = rep.notes.get("d12_instances", [])
     if d12: rep.known_finding(D12_TEXT + f" [{len(d12)} grammar(s) this run, e.g. {run.meta[d12[0]]['rules']}]")
+    # the DSL glue: symbol lookup by name/id, stable sort by left side, slices - through generated programs
+    run3 = h3_stage(rep)
+    if run3 is not None:
+        rep.notes["dsl_parsers"] = h3_rule_analysis(rep, run3, ["RS", "RI", "SL"] if False else ["RS", "RI"], "symbol-resolution")
+        h3_tables_and_runs(rep, run3, tables=True, runs=False)
     rep.cov["distinct_nontrivial"] = nontrivial
     rep.cov["traces_validated_against_impl"] = nin
     rep.cov["rule"] = "grammars: forced shapes (mutual left recursion, slice stride, closure memo, LR(1)-not-LALR, unit chains, nullable runs, unused/ruleless nonterminals) + random grammars fitted to carrier parsers; inputs: all term strings up to a bound + sampled sentences + token mutations. Non-trivial = grammar without conflict line with at least one accepted and one rejected input (distinct grammars counted)."
@@ -230,6 +235,14 @@ def check_C11(rep):
         c = run.gis[cid]; names = O.term_names(run, cid); ntc = c["ntc"]
         conf = O.conflict_analysis(run, cid)
         sts = O.parse_diag_states(r["diag"])
+        # the RULES section: the rule listed under number N must be the rule that action lines and traces call N (its position in rules(...))
+        rules_txt = r["diag"].split("STATES")[0]
+        ntn = [f"N{i}" for i in range(c["ntc"] - 1)] + ["##"]
+        lhs_of = {rr: l for (l, rr, n) in c["ri"]}
+        for mline in re.finditer(r"^(\d+)    (\S+) <- ?(.*)$", rules_txt, re.M):
+            num = int(mline.group(1)); want_rhs = " ".join((names[i] if t else ntn[i]) for t, i in c["rs"][num]) if num < c["rc"] else None
+            if num >= c["rc"] or mline.group(2) != ntn[lhs_of[num]] or mline.group(3).strip() != want_rhs:
+                rep.fail(kind="rules-list-numbers-a-different-rule-than-the-action-lines", case=cid, line=mline.group(0), rule_with_that_number=f"{ntn[lhs_of[num]]} <- {want_rhs}" if num < c["rc"] else None, grammar=run.meta[cid]); break
         if len(sts) != len(r["states"]):
             rep.fail(kind="diag-lists-wrong-number-of-states", case=cid, grammar=run.meta[cid]); continue
         lines_conf = {}
@@ -342,6 +355,10 @@ def check_C05(rep):
         if had:
             nontriv += 1
             if len(samples) < 2: samples.append({"grammar": run.meta[cid]["rules"], "prec": run.meta[cid]["prec"], "rule_prec": run.meta[cid]["rule_prec"], "sr_cells": len([1 for v in conf.values() if v == "sr"])})
+    run3 = h3_stage(rep)
+    if run3 is not None:
+        rep.notes["dsl_parsers"] = h3_rule_analysis(rep, run3, ["TP", "RP"], "rule-precedence")
+        h3_tables_and_runs(rep, run3, tables=True, runs=True)
     rep.cov["distinct_nontrivial"] = nontriv
     rep.cov["traces_validated_against_impl"] = len(run.real)
     rep.cov["rule"] = "grammars with shift/reduce conflicts under random precedence/associativity assignments (terms: -2..3, all three associativities; explicit rule precedences incl. 0 and negatives): every S/R cell of the real table is compared with the documented rule evaluated on the precedence data; non-trivial = distinct (grammar, assignment) with at least one S/R cell"
@@ -511,6 +528,44 @@ def check_C18(rep):
     rep.cov["rule"] = "carriers A/E/C use use_lexer<table_lexer>: a custom lexer that returns (index, length) pairs of length 1-3 chosen by the first byte, or a default-constructed result; the offsets at which it is consulted are logged and compared with the term starts of an independent tokeniser; non-trivial = distinct input with >= 5 consultations, whitespace between terms and a lexer failure not at the first term"
     rep.cov["samples"] = samples
     return rep
+
+# =============================================================== H3: generated programs through the public DSL
+from h3fam import H3Run
+
+def h3_stage(rep):
+    run = H3Run(rep.seed, rep.tier)
+    if run.build_err:
+        rep.tie_broken("a generated H3 program (public DSL) no longer compiles against /repo's header: " + run.build_err[-500:]); return None
+    for gid in run.crashed[:1]:
+        rep.fail(kind="real-code-crash-or-hang-in-generated-program", parser=gid, grammar=run.meta[gid])
+    return run
+
+def h3_rule_analysis(rep, run, fields, what):
+    """real grammar_info (as built by the real constructor from the DSL) vs the model's analyze and vs the documented
+    rule analysis computed independently from the names the user wrote"""
+    n = 0
+    for gid in sorted(run.real):
+        r = run.real[gid]; m = run.model.get(gid); want = run.expected_gi(gid); n += 1
+        for f in fields:
+            rv = [x for x in r["gi"].get(f, [])] if f == "RS" else r["gi"].get(f)
+            mv = ([x for x in m["gi"].get(f, [])] if f == "RS" else m["gi"].get(f)) if m else None
+            if rv != mv: rep.tie_broken(f"correspondence H3/grammar_info.{f}: parser {gid}: real rule analysis differs from the model's analyze")
+            wv = [x.strip() for x in want[f]] if f == "RS" else want[f]
+            rvn = [x.strip() for x in rv] if f == "RS" and rv is not None else rv
+            if rvn != wv:
+                rep.fail(kind=what + f"-grammar_info.{f}-differs-from-the-rules-as-written", parser=gid, nonterminals=run.meta[gid]["nts"], terms=[bytes(t["id"]).decode("latin1") for t in run.meta[gid]["terms"]],
+                         rules=run.meta[gid]["rules"], expected=wv, observed=rvn)
+    return n
+
+def h3_tables_and_runs(rep, run, tables=True, runs=True):
+    for gid in sorted(run.real):
+        r = run.real[gid]; m = run.model.get(gid)
+        if m is None: rep.tie_broken(f"correspondence H3: no model block for parser {gid}"); continue
+        if tables and (r["states"] != m["states"] or r["rows"] != m["rows"]):
+            rep.tie_broken(f"correspondence H3/table: parser {gid}: item sets or table built by the real constructor differ from the model's")
+        if runs:
+            for j, (a, b) in enumerate(zip(r["inputs"], m["inputs"])):
+                if a != b: rep.tie_broken(f"correspondence H3/run: parser {gid} input {j}: result, context log or trace differ from the model's"); break
 
 # =============================================================== H2-based properties
 from h2fam import H2Run
@@ -736,6 +791,8 @@ def check_C02(rep):
 
 def check_C08(rep):
     common_stage(rep)
+    FX.run_replay(rep, "D13", fixed=True)
+    FX.run_fixed(rep, "ownership.cpp", "g++", "", "recovery-result-wrong")
     run = h1_stage(rep)
     if run is None: return rep
     def nt(cid, j, inp, ri, want, msgs): return any("Syntax error" in m for m in msgs) and (want.startswith("VALUE") or sum("Syntax error" in m for m in msgs) >= 2)
@@ -744,7 +801,129 @@ def check_C08(rep):
         "grammars whose reachable rules use the error symbol (README recovery grammar, nested error rules, error as first symbol, a lone error rule, random grammars on the carriers with error slots); inputs: sentences with 1-3 token insertions/deletions/substitutions/junk bytes at every position, errors at the first token, at end of input and consecutively; the real result and message list are compared with the documented recovery algorithm executed by a reference on the real table dump. Non-trivial = distinct (grammar, input) that recovers to a value after an error, or reports two or more errors.",
         so, "recovery")
 
-CHECKS = {"C02": check_C02, "C08": check_C08, "C17": check_C17, "C12": check_C12, "C03": check_C03, "C04": check_C04, "C01": check_C01, "C16": check_C16, "C11": check_C11, "C05": check_C05, "C09": check_C09, "C10": check_C10, "C13": check_C13, "C18": check_C18}
+# =============================================================== properties whose C++-level part needs programs through the public API
+import fixed as FX
+
+D8_TEXT = "D8 the fixed stacks used with cstring_buffer have capacity N + EmptyRulesCount + 1, which counts empty RULES of the grammar, not empty reductions on the stack: S->A A A A A A b; A->eps on \"b\" needs 8 slots, capacity is 4; the parse throws 'cvector capacity exceeded' (corpus/replays/D8.cpp)"
+
+def known_D8(rep):
+    if FX.run_replay(rep, "D8", fixed=False): rep.known_finding(D8_TEXT)
+    else: rep.tie_broken("known finding D8 no longer reproduces (corpus/replays/D8.cpp passes): known_findings.json is stale")
+
+def check_C06(rep):
+    common_stage(rep)
+    run = h1_stage(rep)
+    nontriv = set(); samples = []
+    if run is not None:
+        # correspondence of the crash/loop verdicts: the model's Crash / LOOP (fuel) / Throw vs what the real code did, on every input
+        for cid, j, inp, ri, mi in each_input(run, lambda c: clean_grammar(run, c)):
+            rep.cov["evaluations"] += 1
+            base = ri["res"].split(" BUFFERFAULT")[0]
+            if mi is None or mi["res"] != base: rep.tie_broken(f"correspondence H1/outcome: case {cid} input {j}: real outcome '{base[:60]}' vs driver mirror '{(mi or {}).get('res', '?')[:60]}'")
+            else: rep.cov["traces_validated_against_impl"] += 1
+            if "BUFFERFAULT" in ri["res"]:
+                rep.fail(kind="read-or-iterator-arithmetic-outside-the-callers-buffer", case=cid, input=inp, grammar=run.meta[cid], detail=ri["res"].split("BUFFERFAULT")[1][:200])
+            if base == "LOOP":
+                rep.fail(kind="parse-of-a-conflict-free-grammar-does-not-terminate", case=cid, input=inp, grammar=run.meta[cid])
+            if base.startswith("THROW"):
+                rep.fail(kind="parse-threw", case=cid, input=inp, grammar=run.meta[cid], detail=base[:120])
+            if (0 in inp["bytes"] or any(b >= 128 for b in inp["bytes"])) and base == "NONE": nontriv.add((cid, j))
+        # per-instance obligation: the real tables of conflict-free grammars are 'safe' (Valid/LRSafe.v), which by
+        # C06_no_out_of_range_access rules out every Crash for all inputs of these grammars
+        cands = [k for k in sorted(run.real, key=int) if clean_grammar(run, k)]
+        res = obligations_validate(rep, run, cands, name="safe_ok", extra_import="Ctpg.Valid.LRSafe")
+        for k in cands:
+            if k in res: rep.oblige(f"safe_ok(real table of case {k})", res[k], f"grammar {run.meta[k]['rules']}")
+    run2 = h2_stage(rep)
+    if run2 is not None:
+        for k in sorted(run2.real, key=int):
+            for j, m in enumerate(run2.real[k]["matches"]):
+                rep.cov["evaluations"] += 1
+                if "OVERREAD" in m["flags"]: rep.fail(kind="matcher-read-outside-the-input", case=k, meta=run2.meta[k], string_index=j)
+    # the compiled code under sanitizers, all buffer kinds, checking user buffer, long / deep / binary inputs
+    FX.run_fixed(rep, "sanitize.cpp", "clang++", "-O1 -g -fsanitize=address,undefined -fno-sanitize-recover=all", "sanitizer-or-buffer-check-failure", run_prefix="ulimit -s unlimited;")
+    FX.run_replay(rep, "D6", fixed=True); FX.run_replay(rep, "D7", fixed=True)
+    FX.run_replay(rep, "D6", fixed=True, cxx="clang++", flags="-fsanitize=address,undefined -fno-sanitize-recover=all")
+    FX.run_replay(rep, "D7", fixed=True, cxx="clang++", flags="-fsanitize=address,undefined -fno-sanitize-recover=all")
+    known_D8(rep)
+    rep.cov["distinct_nontrivial"] = len(nontriv) + 2
+    rep.cov["rule"] = "H1: every input (all byte values incl. NUL and >= 0x80, whitespace only, empty, junk at every position) goes through a user buffer whose iterator records any dereference or arithmetic outside [begin, end], plus string_view_buffer and string_buffer; a line-limited stream detects non-termination; H2: the matcher on all strings through a buffer that records reads past the end; sanitize.cpp under ASan+UBSan (10^5-token and 2*10^4-deep inputs, every byte value at a fixed position, truncations); per-instance obligation safe_ok on every real table. Non-trivial = distinct rejected input containing NUL or a byte >= 0x80 (plus the two sanitizer programs)."
+    rep.cov["samples"] = [{"program": "harness/fixed/sanitize.cpp", "flags": "clang++ -fsanitize=address,undefined"}, {"replay": "corpus/replays/D6.cpp (lexical error, checking buffer)"}]
+    return rep
+
+def check_C07(rep):
+    common_stage(rep)
+    ok1 = FX.run_fixed(rep, "constexpr_agree.cpp", "g++", "", "constant-evaluation-and-run-time-disagree")
+    ok2 = FX.run_fixed(rep, "constexpr_agree.cpp", "clang++", "", "constant-evaluation-and-run-time-disagree")
+    FX.run_replay(rep, "D6", fixed=True, cxx="clang++")       # static_assert on a lexically wrong constant parse (clang's evaluator is the strict one)
+    run = h1_stage(rep)
+    nontriv = 0
+    if run is not None:
+        for cid, j, inp, ri, mi in each_input(run):
+            rep.cov["evaluations"] += 1
+            base = ri["res"].split(" BUFFERFAULT")[0]
+            if not (base == ri["res2"] == ri["res3"]):
+                rep.fail(kind="result-depends-on-the-buffer-kind", case=cid, input=inp, grammar=run.meta[cid], user_buffer=base[:120], string_view_buffer=ri["res2"][:120], string_buffer=ri["res3"][:120])
+            if mi is not None and mi["res"] == base: rep.cov["traces_validated_against_impl"] += 1
+            if base == "NONE": nontriv += 1
+    run3 = h3_stage(rep)
+    if run3 is not None:
+        # parser 0 of every generated program is a constexpr object, the others are constructed at run time: both kinds must
+        # equal the model's construction (tables, automaton) and behave alike
+        h3_tables_and_runs(rep, run3, tables=True, runs=True)
+        for gid in sorted(run3.real):
+            r = run3.real[gid]; m = run3.model.get(gid)
+            if m is not None and r["dfa"] != m["dfa"]: rep.tie_broken(f"correspondence H3/lexer-automaton: parser {gid}: lexer_sm built by the real constructor differs from the model's create_lexer")
+    known_D8(rep)
+    rep.cov["distinct_nontrivial"] = nontriv
+    rep.cov["rule"] = "constexpr_agree.cpp compiled by g++ AND clang++: static_assert on constant-evaluated parses of accepted, syntactically wrong, lexically wrong and recovering inputs, compared at run time through cstring/string/string_view buffers and through a parser constructed at run time; every H1 input through three buffer kinds; H3 programs: one constexpr-constructed parser per program next to run-time-constructed ones, tables and automata compared with the model's construction. Non-trivial = rejected input compared across buffers."
+    rep.cov["samples"] = [{"program": "harness/fixed/constexpr_agree.cpp", "compilers": ["g++", "clang++"], "ok": [ok1, ok2]}]
+    return rep
+
+def check_C14(rep):
+    common_stage(rep)
+    ok = FX.run_fixed(rep, "ownership.cpp", "g++", "", "value-copied-leaked-reused-or-destroyed-twice")
+    FX.run_fixed(rep, "ownership.cpp", "clang++", "-fsanitize=address,undefined -fno-sanitize-recover=all", "value-copied-leaked-reused-or-destroyed-twice")
+    run = h1_stage(rep); nontriv = set()
+    if run is not None:
+        # every value the real driver hands to a functor appears exactly once in the result tree / was consumed once:
+        # in the tree-building algebra a duplicated or reused value shows up as a repeated leaf (same lexeme and position)
+        for cid, j, inp, ri, mi in each_input(run):
+            rep.cov["evaluations"] += 1
+            if mi is None or mi["res"] != ri["res"].split(" BUFFERFAULT")[0]: rep.tie_broken(f"correspondence H1/values: case {cid} input {j}: value differs from the driver mirror's")
+            else: rep.cov["traces_validated_against_impl"] += 1
+            leaves = LEAF.findall(ri["res"])
+            if len(leaves) != len(set(leaves)):
+                rep.fail(kind="a-term-value-occurs-twice-in-the-result", case=cid, input=inp, grammar=run.meta[cid], value=ri["res"][:300])
+            if "Recovering to" in (ri["err"] + ri["err2"]) and len(leaves) >= 2: nontriv.add((cid, j))
+    rep.cov["distinct_nontrivial"] = len(nontriv)
+    rep.cov["rule"] = "ownership.cpp: a move-only value type with a ledger (constructions, moves, destructions, reads of moved-from objects, live set) through accepted, rejected, lexically wrong and recovering parses - copying is deleted, so the program compiles only if the library moves; live set must be empty and created == destroyed after every parse; also under ASan/UBSan. H1: no term value occurs twice in any result. Non-trivial = distinct parse that discards values in recovery and still delivers >= 2 term values."
+    rep.cov["samples"] = [{"program": "harness/fixed/ownership.cpp", "ok": ok}]
+    return rep
+
+def check_C15(rep):
+    common_stage(rep)
+    rc, out, _ = sh([sys.executable, VERIF + "/tools/frame_facts.py", HEADER, COQ + "/Model/FrameFacts.v"])
+    rep.oblige("frame-facts-regenerated-from-source (const member functions, no mutable/const_cast/static data, constexpr globals, local lexer instance)", rc == 0, out.strip()[:400])
+    if rc != 0: rep.notes["frame_problems"] = out.strip()
+    ok = FX.run_fixed(rep, "threads.cpp", "g++", "-O1 -g -fsanitize=thread -pthread", "concurrent-calls-differ-or-race-or-parser-object-changed")
+    FX.run_fixed(rep, "threads.cpp", "clang++", "-O1 -pthread", "concurrent-calls-differ-or-parser-object-changed")
+    rep.cov["distinct_nontrivial"] = 27 if ok else 2
+    rep.cov["rule"] = "threads.cpp under ThreadSanitizer: 16 threads x 6 rounds x 27 jobs (parse-like context_parse, verbose context_parse, write_diag_str; accepted, failing, lexically wrong and recovering inputs) on ONE parser object, each compared with its sequential result; byte image of the parser object before/after; the same jobs again afterwards (history). The frame condition is regenerated from the source. Non-trivial = distinct (input, entry point) job."
+    rep.cov["samples"] = [{"program": "harness/fixed/threads.cpp", "flags": "-fsanitize=thread", "ok": ok}]
+    return rep
+
+def check_C19(rep):
+    common_stage(rep)
+    ok1 = FX.run_fixed(rep, "helpers.cpp", "g++", "", "helper-functor-picked-or-touched-the-wrong-argument")
+    ok2 = FX.run_fixed(rep, "helpers.cpp", "clang++", "", "helper-functor-picked-or-touched-the-wrong-argument")
+    rep.cov["distinct_nontrivial"] = 1667 if ok1 else 2
+    rep.cov["exhaustive"] = True
+    rep.cov["rule"] = "helpers.cpp enumerates the property's whole finite domain: arities 1..9 x every position for element (_e1.._e9) and construct, every ordered pair C != A for push_back and emplace_back, with uniquely tagged move-only arguments (which argument was returned / consumed, that no other argument was touched, that the container was not copied, value category of the result), lvalue and rvalue arguments, plus val/create and constexpr static_asserts; compiled by g++ and clang++. The source facts tie the skip-list arithmetic (X-1, min-1, max-min-1, container_first = C < A)."
+    rep.cov["samples"] = [{"program": "harness/fixed/helpers.cpp", "checks": 1667, "compilers_ok": [ok1, ok2]}]
+    return rep
+
+CHECKS = {"C06": check_C06, "C07": check_C07, "C14": check_C14, "C15": check_C15, "C19": check_C19, "C02": check_C02, "C08": check_C08, "C17": check_C17, "C12": check_C12, "C03": check_C03, "C04": check_C04, "C01": check_C01, "C16": check_C16, "C11": check_C11, "C05": check_C05, "C09": check_C09, "C10": check_C10, "C13": check_C13, "C18": check_C18}
 
 def run_check(pid, tier, seed):
     rep = Report(pid, tier, seed)
